@@ -14,6 +14,9 @@ def parseOp? (tok : String) : Option Op :=
   | ["expa", k] => do pure (.expireVal (← k.toNat?))
   | ["expi", k] => do pure (.expireId (← k.toNat?))
   | ["begin"] => some .begin
+  | ["bn"] => some .beginNested
+  | ["rbn"] => some .rollbackNested
+  | ["rel"] => some .releaseNested
   | ["flush"] => some .flush
   | ["commit"] => some .commit
   | ["rollback"] => some .rollback
@@ -30,7 +33,7 @@ def showOut (n : Nat) (op : Op) (st : St) : Out → String
   | .skip => "-"
   | .done =>
     match op with
-    | .flush | .commit | .rollback => "d" ++ showDb n st.db
+    | .flush | .commit | .rollback | .beginNested | .rollbackNested | .releaseNested => "d" ++ showDb n st.db
     | _ => "d"
   | .raised => "x"
   | .val none => "None"
